@@ -36,6 +36,7 @@ def cases(draw):
     s["order"] = min(s["order"], 3)
     s["overshoot"] = draw(st.sampled_from([False, False, False, True]))
     s["over_by"] = draw(st.floats(0.05, 0.6))
+    s["edge"] = draw(st.sampled_from([None, None, "low", "high"]))      # lowest / highest request inside the first / last table cell
     return s
 
 
@@ -146,10 +147,13 @@ def oracle(ctx, s, ds, qs, case):
     if not np.all(np.diff(vol_tp, axis=1) < 0):
         raise PropertyViolation("C06/volume-monotonic", "V(T,P) does not decrease with P", case)
     for i in range(nt):
-        # P as a function of V along the isotherm (V decreasing -> reverse)
-        pv = CubicSpline(V[::-1], P[i][::-1])(vol_tp[i])
-        dpdv = np.abs(CubicSpline(V[::-1], P[i][::-1])(vol_tp[i], 1))
-        if np.any(np.abs(pv - p) > dpdv * slack[i] * 2 + 1e-7 * sc):
+        # P as a function of V along the isotherm (V decreasing -> reverse); the interpolation error of this reference
+        # itself is estimated like everywhere else (cubic spline vs local quadratic, largest over the row)
+        spl = CubicSpline(V[::-1], P[i][::-1])
+        pv = spl(vol_tp[i])
+        dpdv = np.abs(spl(vol_tp[i], 1))
+        perr = float(np.max(np.abs(pv - local_quadratic(V[::-1], P[i][::-1], vol_tp[i]))))
+        if np.any(np.abs(pv - p) > dpdv * slack[i] * 2 + 3 * perr + 1e-7 * sc):
             raise PropertyViolation("C06/volume-pressure", "P(T,V(T,P)) != P", case)
     # every quantity
     for name, (ftv, ftp) in fields.items():
@@ -173,10 +177,10 @@ def oracle(ctx, s, ds, qs, case):
 
 def build(s):
     ds = Dataset(s)
-    r = place_pressures(ds)
+    r = place_pressures(ds, edge=None if s["overshoot"] else s.get("edge"))
     if r is None:
         return ds, None
-    qs, (lo, hi) = r
+    qs, (lo, hi) = r[0], r[1][:2]
     if s["overshoot"]:
         R = hi - lo
         top = hi + max(0.05 * R, 2.0) + s["over_by"] * R
@@ -201,7 +205,8 @@ def sub_conversion(ctx):
         if info["overshoot"]:
             ctx.case(s, True, classes=["overshoot-rejected"])
         else:
-            ctx.case(s, info["cells"] >= 3 and s["nt"] + 4 >= 2, classes=["inside", "cells>=3" if info["cells"] >= 3 else "cells<3"])
+            ctx.case(s, info["cells"] >= 3 and s["nt"] + 4 >= 2, classes=["inside", "cells>=3" if info["cells"] >= 3 else "cells<3",
+                                                                         "edge-%s" % s.get("edge")])
 
     ctx.run_given(body, cases(), max_examples=ctx.n(128, 5000), shrink=not ctx.quick)
 
